@@ -204,8 +204,7 @@ Section Resolve.
             (removelast (g_demes g) ++ [d]) (g_migs g) (g_pulses g) (g_index g).
 
   (* ---- migrations (demes.py:372-384, 1607-1693) ---- *)
-  Definition pymax (a b : num) : num := if nlt a b then b else a.   (* max(a, b) *)
-  Definition pymin (a b : num) : num := if nlt b a then b else a.   (* min(a, b) *)
+  (* pymax / pymin (builtin max / min on two numbers) are defined in Base/Py.v *)
 
   (* _check_time_intersection *)
   Definition time_intersection (g : graph) (n1' n2' : string) (time : option jv) : res (num * num) :=
